@@ -898,3 +898,104 @@ def role_text(fn, expr, depth=6, params_as=None):
     node = norm(node, {})
     ast.fix_missing_locations(node)
     return ctext(node)
+
+
+# ---------------------------------------------------------------------------------------------------------------------
+# Boolean functions over opaque atoms: the truth table of a function's result, independent of how it is written
+# (early returns, nested ifs, and/or/not, conditional expressions, temporaries).
+# ---------------------------------------------------------------------------------------------------------------------
+
+
+def _bool_atoms(e, out):
+    if isinstance(e, ast.BoolOp):
+        for v in e.values:
+            _bool_atoms(v, out)
+    elif isinstance(e, ast.UnaryOp) and isinstance(e.op, ast.Not):
+        _bool_atoms(e.operand, out)
+    elif isinstance(e, ast.IfExp):
+        _bool_atoms(e.test, out)
+        _bool_atoms(e.body, out)
+        _bool_atoms(e.orelse, out)
+    elif isinstance(e, ast.Constant) and isinstance(e.value, bool):
+        pass
+    else:
+        out.add(ast.unparse(e))
+    return out
+
+
+def _bool_eval(e, asg):
+    if isinstance(e, ast.BoolOp):
+        vals = [_bool_eval(v, asg) for v in e.values]
+        return all(vals) if isinstance(e.op, ast.And) else any(vals)
+    if isinstance(e, ast.UnaryOp) and isinstance(e.op, ast.Not):
+        return not _bool_eval(e.operand, asg)
+    if isinstance(e, ast.IfExp):
+        return _bool_eval(e.body, asg) if _bool_eval(e.test, asg) else _bool_eval(e.orelse, asg)
+    if isinstance(e, ast.Constant) and isinstance(e.value, bool):
+        return e.value
+    return asg[ast.unparse(e)]
+
+
+def bool_table(fn_or_text, max_atoms=8):
+    """(sorted atoms, {tuple of atom values: result}) of a boolean-valued function (or of a formula given as text).
+    Atoms are the maximal non-boolean sub-expressions, printed as role texts.  'raise' paths give the result "raise"."""
+    import itertools
+
+    if isinstance(fn_or_text, str):
+        root = ast.parse(role_text(None, fn_or_text), mode="eval").body
+        stmts = [ast.Return(value=root)]
+        rt = lambda e: e
+    else:
+        fn = fn_or_text
+        stmts = [s for s in fn.body if not (isinstance(s, ast.Expr) and isinstance(s.value, ast.Constant))]
+        rt = lambda e: ast.parse(role_text(fn, e), mode="eval").body
+
+    cache = {}
+
+    def R(e):
+        k = id(e)
+        if k not in cache:
+            cache[k] = rt(e)
+        return cache[k]
+
+    atoms = set()
+
+    def collect(body):
+        for s in body:
+            if isinstance(s, ast.If):
+                _bool_atoms(R(s.test), atoms)
+                collect(s.body)
+                collect(s.orelse)
+            elif isinstance(s, ast.Return):
+                if s.value is not None:
+                    _bool_atoms(R(s.value), atoms)
+            elif isinstance(s, (ast.Assign, ast.AnnAssign, ast.Pass, ast.Raise, ast.Assert, ast.Import, ast.ImportFrom)):
+                continue
+            elif isinstance(s, ast.Expr):
+                continue
+            else:
+                raise AnalysisError(f"shape not recognised: `{norm_text(s, 50)}` in a boolean function")
+
+    collect(stmts)
+    atoms = sorted(atoms)
+    if len(atoms) > max_atoms:
+        raise AnalysisError(f"shape not recognised: {len(atoms)} atoms in a boolean function")
+
+    def run(body, asg):
+        for s in body:
+            if isinstance(s, ast.If):
+                r = run(s.body if _bool_eval(R(s.test), asg) else s.orelse, asg)
+                if r is not None:
+                    return r
+            elif isinstance(s, ast.Return):
+                return ("v", _bool_eval(R(s.value), asg)) if s.value is not None else ("v", None)
+            elif isinstance(s, ast.Raise):
+                return ("raise", None)
+        return None
+
+    table = {}
+    for vals in itertools.product((False, True), repeat=len(atoms)):
+        asg = dict(zip(atoms, vals))
+        r = run(stmts, asg)
+        table[vals] = "fallthrough" if r is None else ("raise" if r[0] == "raise" else r[1])
+    return atoms, table
